@@ -12,6 +12,9 @@
 // parameter of the method (identified by its position in the Factory interface, not by its
 // name), fmt.Sprintf(format, elems...), fmt.Sprintf("originalError: %+v", err) or nil; anything
 // else is reported as untranslatable (exit 1): the tie is then broken and the check says so.
+// String arguments may also be named package-level string constants (resolved before matching).
+//
+//	xlate_gerr_wiring -fns <dir of package gerror> -out FILE.v       (see fn.go)
 package main
 
 import (
@@ -21,9 +24,12 @@ import (
 	"go/parser"
 	"go/token"
 	"os"
-	"strconv"
+	"path/filepath"
 	"strings"
 )
+
+// package-level string constants of the files read (and, with -base, of the package directory)
+var strConsts = map[string]string{}
 
 var methods = []string{"Base", "SourceOnly", "Stack", "Src", "DTag", "Msg", "SrcDTagMsg", "SrcDTag", "SrcMsg",
 	"DTagMsg", "SrcS", "DTagS", "MsgS", "SrcDTagMsgS", "SrcDTagS", "SrcMsgS", "DTagMsgS", "Convert", "ConvertS"}
@@ -88,13 +94,13 @@ func isSprintf(c *ast.CallExpr) bool {
 
 // strExpr translates a string-typed CloneBase argument.
 func strExpr(m string, e ast.Expr, role map[string]string) string {
-	switch x := e.(type) {
-	case *ast.BasicLit:
-		if x.Kind == token.STRING {
-			if s, err := strconv.Unquote(x.Value); err == nil && s == "" {
-				return "AEmpty"
-			}
+	if id, ok := e.(*ast.Ident); !ok || role[id.Name] == "" {
+		// a literal, a named string constant or a constant concatenation of those
+		if s, ok := constString(e, strConsts); ok && s == "" {
+			return "AEmpty"
 		}
+	}
+	switch x := e.(type) {
 	case *ast.Ident:
 		switch role[x.Name] {
 		case "src":
@@ -110,8 +116,8 @@ func strExpr(m string, e ast.Expr, role map[string]string) string {
 					return "AFmt"
 				}
 			}
-			if lit, ok := a0.(*ast.BasicLit); ok && lit.Kind == token.STRING && !x.Ellipsis.IsValid() {
-				if s, err := strconv.Unquote(lit.Value); err == nil && s == "originalError: %+v" {
+			if id0, isID := a0.(*ast.Ident); !x.Ellipsis.IsValid() && !(isID && role[id0.Name] != "") {
+				if s, ok := constString(a0, strConsts); ok && s == "originalError: %+v" {
 					if id1, ok := a1.(*ast.Ident); ok && role[id1.Name] == "err" {
 						return "AOrig"
 					}
@@ -177,6 +183,92 @@ func isGuard(s ast.Stmt, role map[string]string) bool {
 	return ok && r.Name == v.Name
 }
 
+// typeAssertOfErr recognises `x, ok := err.(Error)` and returns the two names.
+func typeAssertOfErr(s ast.Stmt, role map[string]string) (string, string, bool) {
+	as, ok := s.(*ast.AssignStmt)
+	if !ok || as.Tok != token.DEFINE || len(as.Lhs) != 2 || len(as.Rhs) != 1 {
+		return "", "", false
+	}
+	ta, ok := as.Rhs[0].(*ast.TypeAssertExpr)
+	if !ok || selName(ta.Type) != "Error" {
+		return "", "", false
+	}
+	src, ok := ta.X.(*ast.Ident)
+	if !ok || role[src.Name] != "err" {
+		return "", "", false
+	}
+	v, ok1 := as.Lhs[0].(*ast.Ident)
+	okv, ok2 := as.Lhs[1].(*ast.Ident)
+	if !ok1 || !ok2 {
+		return "", "", false
+	}
+	return v.Name, okv.Name, true
+}
+
+func returnsIdent(s ast.Stmt, name string) bool {
+	ret, ok := s.(*ast.ReturnStmt)
+	if !ok || len(ret.Results) != 1 {
+		return false
+	}
+	r, ok := ret.Results[0].(*ast.Ident)
+	return ok && r.Name == name
+}
+
+// splitGuard recognises the early return of Convert/ConvertS in its equivalent spellings and
+// returns the statements that run when err is NOT a gerror error:
+//
+//	if x, ok := err.(Error); ok { return x }; REST
+//	x, ok := err.(Error); if ok { return x }; REST
+//	x, ok := err.(Error); if !ok { REST }; return x
+//	if x, ok := err.(Error); !ok { REST } else { return x }      (and the mirrored if/else)
+func splitGuard(body []ast.Stmt, role map[string]string) ([]ast.Stmt, bool) {
+	if len(body) == 0 {
+		return body, false
+	}
+	if isGuard(body[0], role) {
+		return body[1:], true
+	}
+	isNot := func(e ast.Expr, name string) bool {
+		u, ok := e.(*ast.UnaryExpr)
+		if !ok || u.Op != token.NOT {
+			return false
+		}
+		id, ok := u.X.(*ast.Ident)
+		return ok && id.Name == name
+	}
+	isId := func(e ast.Expr, name string) bool {
+		id, ok := e.(*ast.Ident)
+		return ok && id.Name == name
+	}
+	// if with initialiser and else
+	if is, ok := body[0].(*ast.IfStmt); ok && is.Init != nil && is.Else != nil && len(body) == 1 {
+		if x, okn, ok := typeAssertOfErr(is.Init, role); ok {
+			if eb, ok := is.Else.(*ast.BlockStmt); ok {
+				switch {
+				case isNot(is.Cond, okn) && len(eb.List) == 1 && returnsIdent(eb.List[0], x):
+					return is.Body.List, true
+				case isId(is.Cond, okn) && len(is.Body.List) == 1 && returnsIdent(is.Body.List[0], x):
+					return eb.List, true
+				}
+			}
+		}
+	}
+	// separate type-assertion statement
+	if len(body) >= 2 {
+		if x, okn, ok := typeAssertOfErr(body[0], role); ok {
+			if is, ok := body[1].(*ast.IfStmt); ok && is.Init == nil && is.Else == nil {
+				switch {
+				case isId(is.Cond, okn) && len(is.Body.List) == 1 && returnsIdent(is.Body.List[0], x):
+					return body[2:], true
+				case isNot(is.Cond, okn) && len(body) == 3 && returnsIdent(body[2], x):
+					return is.Body.List, true
+				}
+			}
+		}
+	}
+	return body, false
+}
+
 func cloneCall(m string, e ast.Expr, recv string, role map[string]string) wiring {
 	c, ok := e.(*ast.CallExpr)
 	if !ok || selName(c.Fun) != "CloneBase" || len(c.Args) != 6 {
@@ -212,11 +304,7 @@ func translate(fd *ast.FuncDecl, generated bool) wiring {
 	}
 	body := fd.Body.List
 	w := wiring{}
-	guard := false
-	if len(body) > 0 && isGuard(body[0], role) {
-		guard = true
-		body = body[1:]
-	}
+	body, guard := splitGuard(body, role)
 	// toPrimary recognises `recv.toPrimaryType(x)` and returns x.
 	toPrimary := func(e ast.Expr) ast.Expr {
 		rc, ok := e.(*ast.CallExpr)
@@ -285,7 +373,13 @@ func main() {
 	gen := flag.String("gen", "", "path of a generated .gerror.go file")
 	typ := flag.String("type", "GError", "receiver type (with -gen)")
 	name := flag.String("name", "gen_wiring", "name of the emitted Gallina definition")
+	fns := flag.String("fns", "", "directory of package gerror: translate CloneBase, FactoryOf, Is, Unwrap, ExtractFactoryReference (fn.go)")
+	out := flag.String("out", "", "output file (with -fns)")
 	flag.Parse()
+	if *fns != "" {
+		runFns(*fns, *out)
+		return
+	}
 	path, generated := *base, false
 	if *gen != "" {
 		path, generated = *gen, true
@@ -296,11 +390,31 @@ func main() {
 	found := map[string]wiring{}
 	// -gen accepts a comma-separated list (the generated file and, with -skipConvertGen, the file
 	// holding the hand-written Convert/ConvertS)
+	var files []*ast.File
 	for _, p := range strings.Split(path, ",") {
 		f, err := parser.ParseFile(fset, p, nil, 0)
 		if err != nil {
 			fail("%v", err)
 		}
+		files = append(files, f)
+	}
+	constFiles := files
+	if !generated {
+		// constants may live in any non-test file of the package
+		if ents, err := os.ReadDir(filepath.Dir(path)); err == nil {
+			for _, e := range ents {
+				n := e.Name()
+				if e.IsDir() || !strings.HasSuffix(n, ".go") || strings.HasSuffix(n, "_test.go") || filepath.Join(filepath.Dir(path), n) == filepath.Clean(path) {
+					continue
+				}
+				if f, err := parser.ParseFile(token.NewFileSet(), filepath.Join(filepath.Dir(path), n), nil, 0); err == nil {
+					constFiles = append(constFiles, f)
+				}
+			}
+		}
+	}
+	strConsts = collectConsts(constFiles)
+	for _, f := range files {
 		for _, d := range f.Decls {
 			fd, ok := d.(*ast.FuncDecl)
 			if !ok || recvType(fd) != *typ || fd.Body == nil {
